@@ -882,4 +882,36 @@ CASES = [
       QUILL_THROW(QuillError{"interval must be set to a value greater than 0"});
     }
 """, "")]),
+
+ # ---------------- C11
+ dict(name="c11-prefix-map-codec", ids=["C11"], rule="C11.R1", subs=[("std/Map.h", """        total_size += Codec<Key>::compute_encoded_size(conditional_arg_size_cache, elem.first);
+        total_size += Codec<T>::compute_encoded_size(conditional_arg_size_cache, elem.second);""", """        total_size += Codec<std::pair<Key, T>>::compute_encoded_size(conditional_arg_size_cache, elem);""")]),
+ dict(name="c11-prefix-unordered-map-encode", ids=["C11"], rule="C11.R1", subs=[("std/UnorderedMap.h", """      Codec<Key>::encode(buffer, conditional_arg_size_cache, conditional_arg_size_cache_index, elem.first);
+      Codec<T>::encode(buffer, conditional_arg_size_cache, conditional_arg_size_cache_index, elem.second);""", """      Codec<std::pair<Key, T>>::encode(buffer, conditional_arg_size_cache, conditional_arg_size_cache_index, elem);""")]),
+ dict(name="c11-temporary-string-in-cstring-encode", ids=["C11"], rule="C11.R1", subs=[("core/Codec.h", """      uint32_t const len = conditional_arg_size_cache[conditional_arg_size_cache_index++];
+      std::memcpy(buffer, arg, len - 1);""", """      uint32_t const len = conditional_arg_size_cache[conditional_arg_size_cache_index++];
+      std::string const tmp{arg ? arg : ""};
+      std::memcpy(buffer, tmp.data(), len - 1);""")]),
+ dict(name="c11-format-in-size-pass", ids=["C11"], rule="C11.R3", subs=[("core/Codec.h", """    if constexpr (std::disjunction_v<std::is_arithmetic<Arg>, std::is_enum<Arg>, std::is_same<Arg, void const*>>)
+    {
+      return sizeof(Arg);
+    }""", """    if constexpr (std::is_same_v<Arg, double>)
+    {
+      return sizeof(Arg) + (fmtquill::formatted_size("{}", arg) > 64 ? 0 : 0);
+    }
+    else if constexpr (std::disjunction_v<std::is_arithmetic<Arg>, std::is_enum<Arg>, std::is_same<Arg, void const*>>)
+    {
+      return sizeof(Arg);
+    }""")]),
+ dict(name="c11-to_string-in-log_statement", ids=["C11"], rule="C11.R1", subs=[("Logger.h", """    // we have enough space in this buffer, and we will write to the buffer
+""", """    // we have enough space in this buffer, and we will write to the buffer
+    if (QUILL_UNLIKELY(total_size > 4096)) { thread_context->increment_failure_counter(); (void)std::to_string(total_size).size(); }
+""")]),
+ dict(name="c11-std-function-on-hot-path", ids=["C11"], rule="C11.R1", subs=[("Logger.h", """    // we have enough space in this buffer, and we will write to the buffer
+""", """    // we have enough space in this buffer, and we will write to the buffer
+    std::function<size_t(size_t)> const adjust = [total_size](size_t n) { return n + total_size; };
+    if (adjust(1) == 0) { return false; }
+"""), ("Logger.h", "#include <atomic>\n", "#include <atomic>\n#include <functional>\n")]),
+ dict(name="c11-vector-copy-in-codec", ids=["C11"], rule="C11.R1", subs=[("std/Vector.h", "      for (auto const& elem : arg)\n      {\n        total_size += Codec<T>::compute_encoded_size(conditional_arg_size_cache, elem);", "      for (auto const elem : arg)\n      {\n        total_size += Codec<T>::compute_encoded_size(conditional_arg_size_cache, elem);")]),
+ dict(name="c11-size-cache-inline-capacity-reduced", ids=["C11"], rule="C11.R1", subs=[("core/InlinedVector.h", "using SizeCacheVector = InlinedVector<uint32_t, 12>;", "using SizeCacheVector = InlinedVector<uint32_t, 8>;")]),
 ]
